@@ -1063,6 +1063,41 @@ example : ptrV4 { prefixes := [⟨⟨[0x20, 1, 0xd, 0xb8, 0, 0, 0, 0, 0, 0, 0, 0
     (embedIPv4 [0x20, 1, 0xd, 0xb8, 0, 0, 0, 0, 0, 0, 0, 0, 0, 0, 0, 0] 96 [192, 0, 2, 33]) = some [192, 0, 2, 33] := by
   decide
 
+/-- **One AAAA per usable (prefix, A record) pair, no more, no fewer.** The
+synthesised block has exactly as many records as there are pairs of a
+configured prefix and an A record usable under it — with several prefixes and
+several A records no slot is duplicated, lost or left stale. -/
+theorem synth_record_count (c : Cfg) (addrs : List RR) (ttl : Nat) :
+    (synthAAAA c addrs ttl).length = (c.prefixes.map fun p => (addrs.filter (usableUnder c p)).length).sum := by
+  unfold synthAAAA
+  rw [List.length_flatMap]
+  congr 1
+  apply List.map_congr_left
+  intro p _
+  rw [filterMap_length_eq_filter]
+  congr 1
+  apply List.filter_congr
+  intro x _
+  unfold usableUnder
+  cases to4 x.ip with
+  | none => rfl
+  | some v4 => cases h : c.shouldExcludeAOnPrefix v4 p <;> simp [h]
+
+example : (synthAAAA { prefixes := [⟨⟨wkpIP, 96, true⟩, true⟩,
+    ⟨⟨[0x20, 1, 0xd, 0xb8, 0, 0, 0, 0, 0, 0, 0, 0, 0, 0, 0, 0], 96, true⟩, false⟩], exA := defaultExcludeAv4 }
+    [{ kind := '4', ttl := 60, owner := "0", ip := [8, 8, 8, 8] }, { kind := '4', ttl := 60, owner := "0", ip := [10, 0, 0, 1] },
+     { kind := '4', ttl := 60, owner := "0", ip := [1, 1, 1, 1] }] 60).length = 5 := by decide
+
+/-- **The client's own AD bit (RFC 6840 §5.7) never reaches the reply.** -/
+theorem reply_ignores_query_ad (c : Cfg) (q : Query) (down : Option Down) (a : AResp) (b : Bool) :
+    serve c { q with ad := b } down a = serve c q down a := rfl
+
+/-- every request-local provenance kind the middleware package knows is accepted
+as a mark by the linked `MarkRequestLocalFailureResponse` (so each is exercised
+as `Mark.attempt` / `Mark.other` by the correspondence). -/
+theorem request_local_kinds_pinned : SdnsVerif.Gen.C20.request_local_kinds_marked = [true, true, true, true, true, true, true] := by
+  decide
+
 /-! ## configuration corners: networks bit by bit, zone text, where the well-known prefix sits -/
 
 /-- **CIDR membership is "the first `bits` bits agree"** — IPv4 network, IPv4 source. -/
